@@ -33,7 +33,8 @@ enum Op
     SQRT, SIN, COS, TAN, ATAN2, ACOS, ASIN, ATAN, EXP, LOG, POW,
     TMIN, TMAX, TEPS, TLOWEST,
     CALL,  // opaque call of another extracted function: s = name, k = flattened args
-    PROJ   // component `idx` of an aggregate-valued CALL (k[0])
+    PROJ,  // component `idx` of an aggregate-valued CALL (k[0])
+    CAST   // conversion of a value of ANOTHER element type to T (C04 narrowing entries): emitted as the parameter `cast : β → α`
 };
 
 struct Node
@@ -177,6 +178,9 @@ struct Sym
     static Sym var (const std::string& name) { return Sym (pool ().mk (VAR, {}, name)); }
     // contextual conversion `if (T l = length ())` (ImathQuat.h normalize): l != 0, a recorded decision
     explicit operator bool () const;
+    // `long (x)` (ImathFrustum.h DepthToZ): a symbolic scalar has no machine-integer value.  The operand is RECORDED in
+    // symns::longCasts () (the extraction entry outputs it) and 0 is returned.  Explicit: never used by overload resolution.
+    explicit operator long () const;
 };
 
 // a second, distinct scalar type standing for "another element type S": forces the
@@ -236,6 +240,8 @@ inline bool operator>= (Sym a, Sym b) { return explorer ().decide (C_LE, b.n, a.
 inline bool operator== (Sym a, Sym b) { return explorer ().decide (C_EQ, a.n, b.n); }
 inline bool operator!= (Sym a, Sym b) { return !explorer ().decide (C_EQ, a.n, b.n); }
 inline Sym::operator bool () const { return !explorer ().decide (C_EQ, n, Sym (0).n); }
+inline std::vector<Sym>& longCasts () { static std::vector<Sym> v; return v; }
+inline Sym::operator long () const { longCasts ().push_back (*this); return 0; }
 #define SYM_MIXED_CMP(T)                                                                  \
     inline bool operator< (Sym a, T b) { return a < Sym (b); }                             \
     inline bool operator< (T a, Sym b) { return Sym (a) < b; }                             \
